@@ -440,7 +440,7 @@ package tchannel
 //@ func (r *Relayer) getDestination(f *lazyCallReq, call RelayCall) (conn *Connection, ok bool, err error)
 //@   ensures err == nil && ok ==> conn != nil && RelayerOK(conn.relay) && ValidRelayMax(conn.relay.maxTimeout)
 //@   label success-leaves-the-call-req-alone
-//@   ensures err == nil && ok ==> LCR(f) && f.Frame == old(f.Frame) && be32(f.Payload, 1) == old(be32(f.Payload, 1)) && len(f.arg2Appends) == old(len(f.arg2Appends))
+//@   ensures err == nil && ok ==> LCR(f) && f.Frame == old(f.Frame) && f.Header.ID == old(f.Header.ID) && be32(f.Payload, 1) == old(be32(f.Payload, 1)) && len(f.arg2Appends) == old(len(f.arg2Appends))
 //@   property C14
 // (the assumed contract of Peer.getConnectionRelay is in the C20 file, shared by C03/C14/C20)
 
